@@ -48,14 +48,7 @@ def graph_class(names, edges):
 
 
 def expected_output(names, edges):
-    """lines the program must print (as a multiset): init once per module reachable, main's views"""
-    n = len(names)
-    reach = projects.reachable(n, edges)
-    lines = [f"init {names[i]}" for i in sorted(reach)]
-    for (a, j) in edges:
-        if a == 0 and j != 0:
-            lines.append(f"main sees {names[j]} {j}")
-    return sorted(lines)
+    return projects.c20_expected_output(names, edges)
 
 
 def check_graph(exe, gi, names, edges, bound, relative=False):
@@ -111,10 +104,14 @@ def graphs_for(tier):
         for names, edges in projects.all_graphs(n):
             if projects.reachable(n, edges) == set(range(n)):
                 out.append((names, edges))
-    if tier == "thorough":
-        for names, edges in projects.all_graphs(4, max_edges=5, self_loops=False):
-            if projects.reachable(4, edges) == set(range(4)):
-                out.append((names, edges))
+    core = {(0, 1), (1, 2), (2, 1)}   # main -> a, a <-> b
+    for names, edges in projects.all_graphs(4, max_edges=5, self_loops=False):
+        if projects.reachable(4, edges) != set(range(4)):
+            continue
+        # quick: the 4-module graphs that extend a 2-cycle below the entry by further imports (a cycle member
+        # with imports before / after its cycle-closing one); thorough: every 4-module graph with <= 5 edges
+        if tier == "thorough" or core <= set(edges):
+            out.append((names, edges))
     return out
 
 
